@@ -224,7 +224,32 @@ func c06eRun(c c06eCase, res map[string]any) {
 	}
 	defer cl.Close()
 
-	conn, err := cl.TCP("target.example:80")
+	// bounded: a server that never answers (a request parser waiting for more than the request) must not hang the run
+	type tcpRes struct {
+		conn net.Conn
+		err  error
+	}
+	tch := make(chan tcpRes, 1)
+	go func() {
+		cn, e := cl.TCP("target.example:80")
+		tch <- tcpRes{cn, e}
+	}()
+	var conn net.Conn
+	select {
+	case r := <-tch:
+		conn, err = r.conn, r.err
+	case <-time.After(20 * time.Second):
+		ob.mu.Lock()
+		dials := ob.dials
+		ob.mu.Unlock()
+		if dials == 0 && !c.FastOpen {
+			// loopback, handshake done, the whole request written 20 s ago, and the server has not even dialled
+			fail("Client.TCP() got no response within 20 s and the server never dialled the target: the request the client wrote was not accepted as complete")
+			return
+		}
+		skip("TCP()", errors.New("no response within 20 s"))
+		return
+	}
 	if c.DialErr != "" {
 		// dial error: from TCP() without fast open, from the first Read with fast open
 		if c.FastOpen {
